@@ -451,11 +451,41 @@ pub fn run_fault(ops: &[Op], base: &[u8], fop: FOp, inject: Option<(Cb, u64)>, a
                     let _ = snapshot(w);
                 }
                 2 => w.clear(),
-                _ => {
+                3 => {
                     let ids: Vec<Id> = snapshot(w).iter().map(|r| r.0).collect();
                     for id in ids.into_iter().chain(issued.iter().copied()) {
                         w.remove(mkid(id));
                     }
+                }
+                4 => {
+                    // per-entity follow-ups through every identifier the caller still holds: overwrite / add
+                    for id in issued.iter().copied() {
+                        if let Some(mut e) = w.entry(mkid(id)) {
+                            e.add(B::make(970));
+                        }
+                        if let Some(mut e) = w.entry(mkid(id)) {
+                            e.add(A::make(971));
+                        }
+                    }
+                    let _ = snapshot(w);
+                }
+                _ => {
+                    for id in issued.iter().copied() {
+                        if let Some(mut e) = w.entry(mkid(id)) {
+                            e.remove::<A, _>();
+                        }
+                        if let Some(mut e) = w.entry(mkid(id)) {
+                            let _ = e.query(Query::<Views!(Option<&O>, Option<&mut B>)>::new()).map(|result!(o, b)| {
+                                if let Some(o) = o {
+                                    o.read();
+                                }
+                                if let Some(b) = b {
+                                    b.read();
+                                }
+                            });
+                        }
+                    }
+                    let _ = snapshot(w);
                 }
             }));
             if ar.is_err() {
@@ -565,13 +595,14 @@ fn worker_c17(tier: &str, shard: usize, nshards: usize, resume: Option<(usize, u
                     println!("FAIL {} :: {} :: {}", f.key.replace(' ', "_"), f.detail.replace('\n', " "), case_json(None, 0));
                 }
             }
-            let (mut points, mut leaks, mut notes) = (0u64, 0u64, 0u64);
-            let mut per_cb = [0u64; NCB];
+            let (points, mut leaks, mut notes) = (0u64, 0u64, 0u64);
+            let per_cb = [0u64; NCB];
             for cb in CB_ALL {
                 let n = dry.calls[cb as usize];
                 for k in 0..n {
-                    let mut counted = false;
-                    for aftermath in 0..4u8 {
+                    // a point whose earlier aftermaths ran in a previous (aborted) worker was already counted there
+                    let mut counted = skip_until.map_or(false, |(sc, sk, _)| (cb as usize, k) == (sc, sk));
+                    for aftermath in 0..6u8 {
                         if let Some((sc, sk, sa)) = skip_until {
                             if (cb as usize, k, aftermath) <= (sc, sk, sa) {
                                 continue;
@@ -579,8 +610,9 @@ fn worker_c17(tier: &str, shard: usize, nshards: usize, resume: Option<(usize, u
                         }
                         if !counted {
                             counted = true;
-                            points += 1;
-                            per_cb[cb as usize] += 1;
+                            // reported immediately so that a later abort of this worker does not lose the count
+                            println!("PT {} {} {}", i, cb as usize, executions);
+                            executions = 0;
                         }
                         util::set_crash_descriptor(&format!("engine=fault-c17 job={} cb={} k={} aftermath={} base={:?} fop={:?}", i, cb as usize, k, aftermath, base, fop));
                         let o = run_fault(&ops, base, fop, Some((cb, k)), aftermath);
@@ -648,6 +680,16 @@ fn main_c17(tier: &str, threads: usize, evidence: Option<&str>, replay_dir: &str
                                 let kind = fops[jobs[j["job"].as_u64().unwrap() as usize].fop].kind();
                                 *tt.6.entry(kind).or_default() += j["points"].as_u64().unwrap();
                             }
+                        } else if let Some(rest) = line.strip_prefix("PT ") {
+                            let v: Vec<u64> = rest.split_whitespace().filter_map(|x| x.parse().ok()).collect();
+                            if v.len() == 3 {
+                                let mut tt = totals.lock().unwrap();
+                                tt.2 += 1;
+                                tt.5[v[1] as usize] += 1;
+                                tt.0 += v[2];
+                                let kind = fops[jobs[v[0] as usize].fop].kind();
+                                *tt.6.entry(kind).or_default() += 1;
+                            }
                         } else if let Some(rest) = line.strip_prefix("FAIL ") {
                             let parts: Vec<&str> = rest.splitn(3, " :: ").collect();
                             if parts.len() == 3 {
@@ -701,7 +743,7 @@ fn main_c17(tier: &str, threads: usize, evidence: Option<&str>, replay_dir: &str
                             }
                             if c >= NCB as u64 {
                                 // crashed in the unfaulted dry run: skip the whole job
-                                resume = Some((j as usize, NCB, u64::MAX, 3));
+                                resume = Some((j as usize, NCB, u64::MAX, 5));
                             } else {
                                 resume = Some((j as usize, c as usize, k, a as u8));
                             }
@@ -743,8 +785,8 @@ fn main_c17(tier: &str, threads: usize, evidence: Option<&str>, replay_dir: &str
         "property_id": "C17", "tier": tier, "seed": seed, "level": "fault_enumeration",
         "coverage": {
             "evaluations": tt.0, "distinct_nontrivial": tt.2,
-            "rule": "one case = (base world, operation, callback kind, call index k); enumerated completely: every k below the number of calls of that kind observed in the unfaulted run of that operation on that base; each case is run with 4 aftermaths (drop; read everything then drop; clear then drop; remove every identifier then drop); distinct_nontrivial counts cases (injection points), evaluations counts executions",
-            "samples": found.iter().take(3).map(|f| serde_json::json!({"key": f.0, "case": serde_json::from_str::<serde_json::Value>(&f.2).unwrap_or_default()})).chain(std::iter::once(serde_json::json!({"base": base_list[base_list.len() / 2], "op": format!("{:?}", fops[5]), "note": "every callback index of every kind, 4 aftermaths each"}))).collect::<Vec<_>>(),
+            "rule": "one case = (base world, operation, callback kind, call index k); enumerated completely: every k below the number of calls of that kind observed in the unfaulted run of that operation on that base; each case is run with 6 aftermaths (drop; read everything then drop; clear then drop; remove every identifier then drop; Entry::add on every identifier then drop; Entry::remove + entry query on every identifier then drop); distinct_nontrivial counts cases (injection points), evaluations counts executions",
+            "samples": found.iter().take(3).map(|f| serde_json::json!({"key": f.0, "case": serde_json::from_str::<serde_json::Value>(&f.2).unwrap_or_default()})).chain(std::iter::once(serde_json::json!({"base": base_list[base_list.len() / 2], "op": format!("{:?}", fops[5]), "note": "every callback index of every kind, 6 aftermaths each"}))).collect::<Vec<_>>(),
             "bases": base_list.len(), "base_depth": depth, "operations": fops.len(), "enabled_base_op_pairs": tt.1,
             "injection_points_per_callback_kind": cbs, "injection_points_per_operation": tt.6,
             "executions_that_leaked_memory_allowed": tt.3, "later_safe_panics_noted": tt.4, "executions_ending_in_process_abort": tt.7,
